@@ -29,6 +29,8 @@ pub struct Session {
     pub filter: Option<Arc<crate::filter::Shared>>,
     /// controlled clock (seconds), 0 = real time
     pub clock: u64,
+    /// number of times the directory was littered (names of the leftovers)
+    pub litter_no: u64,
 }
 
 fn panic_msg(e: &Box<dyn std::any::Any + Send>) -> String {
@@ -80,6 +82,7 @@ impl Session {
             last_choice: crate::LAST_CHOICE.clone(),
             filter,
             clock: 0,
+            litter_no: 0,
         };
         s.open()?;
         Ok(s)
@@ -107,6 +110,32 @@ impl Session {
             Ok(Err(e)) => Err(format!("err:{e:?}")),
             Err(e) => Err(format!("panic:{}", panic_msg(&e))),
         }
+    }
+
+    /// leftovers of a crashed or failed operation (C20): a partial table file, a partial blob
+    /// file and a stale version file under ids no version names
+    fn litter(&mut self) {
+        self.litter_no += 1;
+        let id = 900_000 + self.litter_no;
+        for sub in ["tables", "blobs"] {
+            let d = self.dir.join(sub);
+            if !d.is_dir() {
+                continue;
+            }
+            // half of an existing file of that kind if there is one, junk otherwise
+            let donor = std::fs::read_dir(&d)
+                .ok()
+                .and_then(|mut rd| rd.next())
+                .and_then(|e| e.ok())
+                .and_then(|e| std::fs::read(e.path()).ok());
+            let bytes = match donor {
+                Some(b) if self.litter_no % 2 == 0 => b[..b.len() / 2].to_vec(),
+                Some(b) if self.litter_no % 3 == 0 => b,
+                _ => b"partial".to_vec(),
+            };
+            let _ = std::fs::write(d.join(id.to_string()), bytes);
+        }
+        let _ = std::fs::write(self.dir.join(format!("v{id}")), b"stale");
     }
 
     pub fn index(&self) -> &Tree {
@@ -468,6 +497,9 @@ impl Session {
                 "reopen" => {
                     self.snaps.clear();
                     self.tree = None;
+                    if op["litter"].as_u64().unwrap_or(0) != 0 {
+                        self.litter();
+                    }
                     self.open()
                 }
                 "snap" => {
